@@ -49,7 +49,7 @@ IndexOfName(schema, n) ==
 
 (* keep the first occurrence of every element, in order (Python: uniquify / dict insertion order) *)
 Dedup(s) == LET idx == SelectSeq([i \in 1..Len(s) |-> i], LAMBDA i : \A j \in 1..(i - 1) : s[j] # s[i])
-            IN [k \in 1..Len(idx) |-> s[idx[k]]]
+            IN [k \in 1..Len(idx) |-> s[idx[k]]] \o <<>>
 
 -----------------------------------------------------------------------------
 (* ordering of values: NULL below everything, then by payload (ints, string ranks, False < True) *)
@@ -66,8 +66,8 @@ KeyLess(ka, kb, descs) ==
 StableSort(s, descs) ==
     LET n == Len(s)
         before(j, i) == KeyLess(s[j].keys, s[i].keys, descs) \/ (j < i /\ ~KeyLess(s[i].keys, s[j].keys, descs))
-        rank == [i \in 1..n |-> 1 + Cardinality({j \in 1..n : j # i /\ before(j, i)})]
-    IN [k \in 1..n |-> s[CHOOSE i \in 1..n : rank[i] = k]]
+        rank == [i \in 1..n |-> 1 + Cardinality({j \in 1..n : j # i /\ before(j, i)})] \o <<>>
+    IN [k \in 1..n |-> s[CHOOSE i \in 1..n : rank[i] = k]] \o <<>>
 
 -----------------------------------------------------------------------------
 (* scalar operators: operands of the right kinds or a run-time error *)
@@ -110,35 +110,53 @@ NameOf(t) == IF t.nm # "" THEN t.nm ELSE IF t.e.k = "col" THEN t.e.n ELSE ExprTe
 (* RUN a resolved statement rq = [tg |-> <<[e, nm, ty]..>>, src, wh, ord, dis, lim]
      src : [k |-> "tab", n] | [k |-> "sub", q |-> rq]
      ord : <<[k |-> "tgt", i, desc] | [k |-> "expr", e, desc]..>>
-   over the tables `tabs`.  Returns [ok, desc, rows]. *)
-RECURSIVE Run(_, _), EvalR(_, _, _)
+   over the tables `tabs`.  Returns [ok, desc, rows].
 
-EvalR(e, row, tabs) ==
-    CASE e.k = "c" -> e.v
-      [] e.k = "acc" -> IF e.i >= 1 /\ e.i <= Len(row) THEN row[e.i] ELSE Err
-      [] e.k = "bin" ->
-           LET a == EvalR(e.l, row, tabs) IN
-           IF IsErr(a) THEN Err ELSE IF IsNull(a) THEN Null
-           ELSE LET b == EvalR(e.r, row, tabs) IN
-                IF IsErr(b) THEN Err ELSE IF IsNull(b) THEN Null ELSE ApplyBin(e.op, a, b)
-      [] e.k = "and" ->
-           LET a == EvalR(e.l, row, tabs) IN
-           IF IsErr(a) THEN Err ELSE IF IsNull(a) THEN Null ELSE IF ~Truthy(a) THEN B(FALSE)
-           ELSE LET b == EvalR(e.r, row, tabs) IN
-                IF IsErr(b) THEN Err ELSE IF IsNull(b) THEN Null ELSE B(Truthy(b))
-      [] e.k = "in" ->
-           LET a == EvalR(e.l, row, tabs) IN
-           IF IsErr(a) THEN Err ELSE IF IsNull(a) THEN Null
-           ELSE LET sub == Run(e.q, tabs) IN
-                IF ~sub.ok THEN Err
-                ELSE IF sub.rows = <<>> THEN Null
-                ELSE LET member == \E k \in 1..Len(sub.rows) : sub.rows[k][1] = a
-                     IN B(IF e.neg THEN ~member ELSE member)
-      [] OTHER -> Err
+   The single output column of every IN-subquery of a SELECT is computed ONCE, before its rows are scanned
+   (PreE: the "in" node becomes an "inv" node holding the column) -- this is the per-statement cache of the
+   implementation, and it keeps the evaluation polynomial.  Mat forces TLC to build a sequence (a lazily
+   evaluated function constructor would be re-evaluated at every application). *)
+Mat(f) == f \o <<>>
 
-AggVal(e, rows, tabs) ==
+RECURSIVE Run(_, _), PreE(_, _)
+
+EvalR(e, row) ==
+    LET RECURSIVE Ev(_)
+        Ev(x) ==
+            CASE x.k = "c" -> x.v
+              [] x.k = "acc" -> IF x.i >= 1 /\ x.i <= Len(row) THEN row[x.i] ELSE Err
+              [] x.k = "bin" ->
+                   LET a == Ev(x.l) IN
+                   IF IsErr(a) THEN Err ELSE IF IsNull(a) THEN Null
+                   ELSE LET b == Ev(x.r) IN
+                        IF IsErr(b) THEN Err ELSE IF IsNull(b) THEN Null ELSE ApplyBin(x.op, a, b)
+              [] x.k = "and" ->
+                   LET a == Ev(x.l) IN
+                   IF IsErr(a) THEN Err ELSE IF IsNull(a) THEN Null ELSE IF ~Truthy(a) THEN B(FALSE)
+                   ELSE LET b == Ev(x.r) IN
+                        IF IsErr(b) THEN Err ELSE IF IsNull(b) THEN Null ELSE B(Truthy(b))
+              [] x.k = "inv" ->
+                   LET a == Ev(x.l) IN
+                   IF IsErr(a) THEN Err ELSE IF IsNull(a) THEN Null
+                   ELSE IF ~x.ok THEN Err
+                   ELSE IF x.col = <<>> THEN Null
+                   ELSE LET member == \E m \in 1..Len(x.col) : x.col[m] = a
+                        IN B(IF x.neg THEN ~member ELSE member)
+              [] OTHER -> Err
+    IN Ev(e)
+
+PreE(e, tabs) ==
+    CASE e.k = "bin" -> [k |-> "bin", op |-> e.op, l |-> PreE(e.l, tabs), r |-> PreE(e.r, tabs)]
+      [] e.k = "and" -> [k |-> "and", l |-> PreE(e.l, tabs), r |-> PreE(e.r, tabs)]
+      [] e.k = "agg" -> [k |-> "agg", f |-> e.f, e |-> PreE(e.e, tabs)]
+      [] e.k = "in" -> LET sub == Run(e.q, tabs) IN
+                       [k |-> "inv", neg |-> e.neg, l |-> PreE(e.l, tabs), ok |-> sub.ok,
+                        col |-> Mat([m \in 1..Len(sub.rows) |-> sub.rows[m][1]])]
+      [] OTHER -> e
+
+AggVal(e, rows) ==
     IF e.f = "countstar" THEN I(Len(rows))
-    ELSE LET vals == [i \in 1..Len(rows) |-> EvalR(e.e, rows[i], tabs)]
+    ELSE LET vals == Mat([i \in 1..Len(rows) |-> EvalR(e.e, rows[i])])
              nn == SelectSeq(vals, LAMBDA v : ~IsNull(v))
          IN IF \E i \in 1..Len(vals) : IsErr(vals[i]) THEN Err
             ELSE CASE e.f = "count" -> I(Len(nn))
@@ -155,39 +173,44 @@ Run(rq, tabs) ==
     IN
     IF ~src.ok THEN Failed
     ELSE
-    LET n == Len(src.rows)
-        wv == [i \in 1..n |-> IF rq.wh = NoExpr THEN B(TRUE) ELSE EvalR(rq.wh, src.rows[i], tabs)]
-        kept == LET idx == SelectSeq([i \in 1..n |-> i], LAMBDA i : Truthy(wv[i]))
-                IN [k \in 1..Len(idx) |-> src.rows[idx[k]]]
+    LET rows == src.rows
+        n == Len(rows)
         nt == Len(rq.tg)
-        isagg == \E j \in 1..nt : rq.tg[j].e.k = "agg"
-        descs == [k \in 1..Len(rq.ord) |-> rq.ord[k].desc]
-        KeysOf(vals, row) == [k \in 1..Len(rq.ord) |->
-                                IF rq.ord[k].k = "tgt" THEN vals[rq.ord[k].i] ELSE EvalR(rq.ord[k].e, row, tabs)]
+        te == Mat([j \in 1..nt |-> PreE(rq.tg[j].e, tabs)])                 \* target expressions, IN columns computed
+        we == IF rq.wh = NoExpr THEN NoExpr ELSE PreE(rq.wh, tabs)
+        oe == Mat([k \in 1..Len(rq.ord) |-> IF rq.ord[k].k = "tgt" THEN NoExpr ELSE PreE(rq.ord[k].e, tabs)])
+        wv == Mat([i \in 1..n |-> IF we = NoExpr THEN B(TRUE) ELSE EvalR(we, rows[i])])
+        keptidx == SelectSeq([i \in 1..n |-> i], LAMBDA i : Truthy(wv[i]))
+        kept == Mat([k \in 1..Len(keptidx) |-> rows[keptidx[k]]])
+        isagg == \E j \in 1..nt : te[j].k = "agg"
+        descs == Mat([k \in 1..Len(rq.ord) |-> rq.ord[k].desc])
+        KeysOf(vals, row) == Mat([k \in 1..Len(rq.ord) |->
+                                    IF rq.ord[k].k = "tgt" THEN vals[rq.ord[k].i] ELSE EvalR(oe[k], row)])
         \* one item per kept row (plain query) or per group in order of first appearance (aggregate query)
         items ==
             IF ~isagg
-            THEN [i \in 1..Len(kept) |->
-                    LET vals == [j \in 1..nt |-> EvalR(rq.tg[j].e, kept[i], tabs)]
-                    IN [vals |-> vals, keys |-> KeysOf(vals, kept[i])]]
-            ELSE LET keyidx == SelectSeq([j \in 1..nt |-> j], LAMBDA j : rq.tg[j].e.k # "agg")
-                     KeyOfRow(r) == [m \in 1..Len(keyidx) |-> EvalR(rq.tg[keyidx[m]].e, r, tabs)]
-                     gkeys == Dedup([i \in 1..Len(kept) |-> KeyOfRow(kept[i])])
-                 IN [g \in 1..Len(gkeys) |->
-                       LET grows == SelectSeq(kept, LAMBDA r : KeyOfRow(r) = gkeys[g])
-                           vals == [j \in 1..nt |->
-                                      IF rq.tg[j].e.k = "agg" THEN AggVal(rq.tg[j].e, grows, tabs)
-                                      ELSE gkeys[g][MinOf({m \in 1..Len(keyidx) : keyidx[m] = j})]]
-                       IN [vals |-> vals, keys |-> KeysOf(vals, grows[1])]]
+            THEN Mat([i \in 1..Len(kept) |->
+                        LET vals == Mat([j \in 1..nt |-> EvalR(te[j], kept[i])])
+                        IN [vals |-> vals, keys |-> KeysOf(vals, kept[i])]])
+            ELSE LET keyidx == SelectSeq([j \in 1..nt |-> j], LAMBDA j : te[j].k # "agg")
+                     rowkeys == Mat([i \in 1..Len(kept) |-> Mat([m \in 1..Len(keyidx) |-> EvalR(te[keyidx[m]], kept[i])])])
+                     gkeys == Dedup(rowkeys)
+                 IN Mat([g \in 1..Len(gkeys) |->
+                       LET gidx == SelectSeq([i \in 1..Len(kept) |-> i], LAMBDA i : rowkeys[i] = gkeys[g])
+                           grows == Mat([k \in 1..Len(gidx) |-> kept[gidx[k]]])
+                           vals == Mat([j \in 1..nt |->
+                                      IF te[j].k = "agg" THEN AggVal(te[j], grows)
+                                      ELSE gkeys[g][MinOf({m \in 1..Len(keyidx) : keyidx[m] = j})]])
+                       IN [vals |-> vals, keys |-> KeysOf(vals, grows[1])]])
         bad == \/ \E i \in 1..n : IsErr(wv[i])
                \/ \E i \in 1..Len(items) : \/ \E j \in 1..nt : IsErr(items[i].vals[j])
                                             \/ \E k \in 1..Len(descs) : IsErr(items[i].keys[k])
         sorted == IF rq.ord = <<>> THEN items ELSE StableSort(items, descs)
-        proj == [i \in 1..Len(sorted) |-> sorted[i].vals]
+        proj == Mat([i \in 1..Len(sorted) |-> sorted[i].vals])
         uniq == IF rq.dis THEN Dedup(proj) ELSE proj
         lim == IF rq.lim >= 0 /\ rq.lim < Len(uniq) THEN SubSeq(uniq, 1, rq.lim) ELSE uniq
     IN IF bad THEN Failed
-       ELSE [ok |-> TRUE, desc |-> [j \in 1..nt |-> <<rq.tg[j].nm, rq.tg[j].ty>>], rows |-> lim]
+       ELSE [ok |-> TRUE, desc |-> Mat([j \in 1..nt |-> <<rq.tg[j].nm, rq.tg[j].ty>>]), rows |-> Mat(lim)]
 
 -----------------------------------------------------------------------------
 (* DECLARATIVE RESOLUTION: every SELECT against the table of its own FROM clause *)
